@@ -1,6 +1,7 @@
 CONSTANTS
   Letters <- LettersDef
   Digits <- DigitsDef
+  OtherAlnum <- OtherAlnumDef
   DebugBuild = TRUE
   Rec <- RecInfo
   Alphabet = {"m"}
